@@ -3,19 +3,20 @@ from contracts import refs_ctor as _c
 ID = "C12"
 LEVEL = "other"
 CONTRACT_MODULES = ["contracts.refs", "contracts.refs_ctor"]
-FUNCTIONS = [c.qualname for c in _c.CINITS + _c.REDUCES] + [c.qualname + "@default-pickling" for c in _c.VARIANTS]
+FUNCTIONS = [c.qualname for c in _c.CINITS + _c.REDUCES] + [c.qualname + "@" + c.extra["variant"] for c in _c.VARIANTS]
 ENGINE = RefsEngine
 RAC = "rac/c12.py"
 RAC_BUDGET = {"quick": 50, "thorough": 300}
 DESIGN_REF = "DESIGN.md section 4, C12"
 TECHNIQUE = "contract-based deductive verification of every __reduce__/__cinit__ pair (reduce returns the constructor arguments slot by slot; QF_UF, z3) + run-time pickle round trips"
 TRUSTED = ["the pickle protocol (memoisation preserves sharing, so restored refs point into the restored containers only)",
-           "picklability of defaultdict, Task instances and the user's containers", "z3", "Cython"]
+           "picklability of defaultdict, Task instances and the user's containers (the library's own container AttrDict is under contract: rebuilt through __init__)", "z3", "Cython"]
 ASSUMPTIONS = ["attribute reads in __reduce__ resolve to declared fields; an undeclared name goes through BaseRef.__getattr__ and yields an AttrRef (modelled)",
                "Manager has no __reduce__: its state is __dict__ (dicts, defaultdict(RefCount), tasks)"]
-BOUNDED = ["behavioural identity and independence of the restored manager: all 1-/2-subsets (thorough: 3-subsets) of 19 expressions covering every node class"]
+BOUNDED = ["containers section: default AttrDict containers (item and attribute routes, nested), attribute objects, frozen managers, pickle and deepcopy: 5 scenarios x mirrored follow-up assignments", "behavioural identity and independence of the restored manager: all 1-/2-subsets (thorough: 3-subsets) of 19 expressions covering every node class"]
 EXPLANATION = ("proved: for every class with a __reduce__ the returned pair is (type(self), args) with args equal, position by "
                "position, to the slots that __cinit__ (proved separately) stores them in, so type(self)(*args) rebuilds the node; "
-               "_hash is recomputed by __cinit__. The pickle machinery itself is trusted; round trips are checked at run time.")
+               "_hash is recomputed by __cinit__; AttrDict (the default container of Manager.ref()) is rebuilt by calling the class, so "
+               "that it is its own __dict__ again. The pickle machinery itself is trusted; round trips are checked at run time.")
 LEVEL_TEXT = "Per-class proof of reduce o cinit = id on slots + trusted pickle protocol + bounded round trips."
 LEVEL_NOTE = "See TRUSTED in the evidence file."
